@@ -230,6 +230,18 @@ def binary_worlds(sc, r, tier):
         n += 1
         if r3["rc"] == 0 and (os.path.exists(X + "/a/g") or os.path.exists(X + "/b/g")):
             viol.append({"world": "one pair typed in two ways", "why": "g was synchronised by `sy -b a b`, deleted on one side, and `sy -b %s` brought it back (a=%s b=%s): the second spelling opened another state database" % (" ".join(spelled), os.path.exists(X + "/a/g"), os.path.exists(X + "/b/g"))})
+        # (8) (the symbolic-link repair of round 4) a symbolic link to a file on one side: three runs under each strategy leave the link a
+        # link, make no conflict copy, and the listing of both roots is the same after run 1 as after run 3
+        for strat in r.sample(bc.STRATS, 2):
+            base = os.path.join(sc.dir, "bw-symf-%d-%s" % (k, strat)); A, B = base + "/A", base + "/B"
+            put(A + "/t", b"target"); os.makedirs(B, exist_ok=True); os.symlink("t", A + "/l"); put(B + "/m", b"other"); os.symlink("m", B + "/l2")
+            lists = []
+            for _ in range(3):
+                rr_ = world.run_sy(["--bidirectional", A, B, "-q", "--conflict-resolve", strat], sc)
+                lists.append((rr_["rc"], sorted(os.listdir(A)), sorted(os.listdir(B))))
+            n += 1
+            if lists[0] != lists[2] or not os.path.islink(A + "/l") or not os.path.islink(B + "/l2") or any("conflict" in x for x in lists[2][1] + lists[2][2]):
+                viol.append({"world": "a symbolic link to a file on one side", "strategy": strat, "why": "three runs: %r; A/l is a link: %s, B/l2 is a link: %s" % (lists, os.path.islink(A + "/l"), os.path.islink(B + "/l2"))})
         # (3) the conflict name the rename strategy is about to take is a file of the user's on the OTHER side
         import time
         base = os.path.join(sc.dir, "bw-cname-%d" % k); A, B = base + "/A", base + "/B"
